@@ -2208,3 +2208,58 @@ Proof.
     + exact Hex.
     + apply existsb_exists. exists id. split; [exact Hkm|rewrite Hid; apply N.eqb_refl].
 Qed.
+
+(* ------------------------------------------------------------------ C04: the stale-candidate cleanup after the refresh *)
+
+(** what [clean_old_unconfirmed] deletes: the records stored under (key id, no MMR index) of the
+    refreshed account's Unconfirmed coinbase candidates older than 50 blocks. A record that is not
+    Unconfirmed stays, provided no Unconfirmed record shadows it (same key id while it is itself
+    stored without an MMR index — key ids are unique in a wallet that was not restored twice). *)
+Lemma clean_old_keeps w parent tip k m o :
+  get_out (w_outs w) k m = Some o ->
+  (forall d, In d (w_outs w) -> r_status d = Unconfirmed -> r_key d = k -> m <> None) ->
+  get_out (w_outs (clean_old_unconfirmed w parent tip)) k m = Some o.
+Proof.
+  intros Hg Hsh. unfold clean_old_unconfirmed. destruct (tip <? 50); [exact Hg|].
+  cbn [w_outs with_outs].
+  set (dels := filter _ (w_outs w)).
+  assert (Hd : forall d, In d dels -> In d (w_outs w) /\ r_status d = Unconfirmed).
+  { intros d Hin. apply filter_In in Hin as [Hin Hf]. split; [exact Hin|].
+    repeat (apply andb_true_iff in Hf as [Hf ?]).
+    match goal with H : status_eqb (r_status d) Unconfirmed = true |- _ =>
+      destruct (r_status d); cbn in H; try discriminate; reflexivity end. }
+  clearbody dels.
+  assert (G : forall acc, get_out acc k m = Some o ->
+            get_out (fold_left (fun acc0 o0 => del_out acc0 (r_key o0) None) dels acc) k m = Some o);
+    [|apply G; exact Hg].
+  clear Hg. induction dels as [|d r IH]; intros acc Hg; cbn [fold_left]; [exact Hg|].
+  apply IH; [intros d' Hin; apply Hd; right; exact Hin|].
+  rewrite get_del.
+  destruct (kid_eqb (r_key d) k && optN_eqb None m) eqn:E; [|exact Hg].
+  exfalso. apply andb_true_iff in E as [E1 E2].
+  apply kid_eqb_eq in E1. destruct m as [x|]; [cbn in E2; discriminate|].
+  destruct (Hd d (or_introl eq_refl)) as [Hin Hs].
+  exact (Hsh d Hin Hs E1 eq_refl).
+Qed.
+
+(** the whole [refresh] (apply, then cleanup): a queried record the node reports in its unspent set is
+    still recorded afterwards, Unspent or Locked — the cleanup cannot take it, it is not Unconfirmed
+    any more when the cleanup runs (the order of the two steps matters: seeded change C04_m4) *)
+Theorem refresh_keeps_present w parent all tip p km q :
+  WF w -> lookup (w_confh w) parent <= tip ->
+  In q (refresh_set w parent all) ->
+  (r_status q = Locked ->
+     match r_tx q with
+     | Some i => existsb (N.eqb i) (reverted_ids w parent (refresh_set w parent all) p km) = false
+     | None => True end) ->
+  present_height p (r_key q) (r_mmr q) <> None ->
+  (forall d, In d (w_outs (refresh_apply w parent all tip p km)) -> r_status d = Unconfirmed ->
+             r_key d = r_key q -> r_mmr q <> None) ->
+  exists o', get_out (w_outs (refresh w parent all tip p km)) (r_key q) (r_mmr q) = Some o'
+    /\ (r_status o' = Unspent \/ r_status o' = Locked).
+Proof.
+  intros Hwf Hh Hin Hlk Hp Hsh.
+  destruct (refresh_matches_utxo w parent all tip p km q Hwf Hh Hin Hlk) as (o' & A & B).
+  exists o'. split; [|apply B; exact Hp].
+  unfold refresh. apply clean_old_keeps; assumption.
+Qed.
